@@ -83,7 +83,7 @@ Definition parr : program :=
                   fbody := SReturn (Some (EBin BAdd (EAt (EVar 5) (EVar 6)) (ELen (EVar 5)))) |};
                {| fname := 0; fparams := []; fret := TInt; fbody := SReturn (Some (ENum 0)) |} ];
      pmain := 0 |}.
-(* inside names_apart: the first element of every literal is call-free; (f4 [7, (f2 8), 9] 1) = 8 + 3, (f4 v1 0) = 4 + 2 *)
+(* inside names_apart; (f4 [7, (f2 8), 9] 1) = 8 + 3, (f4 v1 0) = 4 + 2 *)
 Definition sparr_good : sprogram :=
   {| sp_prog := parr;
      sp_shadows := [ {| sh_fn := 4;
@@ -92,7 +92,8 @@ Definition sparr_good : sprogram :=
                                   (SSeq (SAssert (eqz (ECall 4 [EVar 7; ENum 1]) 11))
                                         (SAssert (eqz (ECall 4 [EVar 1; ENum 0]) 6))));
                         sh_skip := false |} ] |}.
-(* outside: the FIRST element is a call that prints; the evaluator evaluates it twice ("8" is printed twice) *)
+(* the FIRST element is a call that prints: before fix 38fa340 the evaluator evaluated it twice ("8" printed twice) and the
+   program was outside names_apart; now it is inside and agrees (InterpRefuted.first_element_once_agrees) *)
 Definition sparr_twice : sprogram :=
   {| sp_prog := parr;
      sp_shadows := [ {| sh_fn := 4;
